@@ -32,7 +32,7 @@ func AllFaultKinds() []string {
 	for _, u := range UnexpectedKinds {
 		l = append(l, "shape:"+u)
 	}
-	l = append(l, "text-file", "bak-file", "dir", "dir-named-go", "dangling-symlink-go", "dangling-symlink", "symlink-to-dir-go", "symlink-to-go-file", "unannotated")
+	l = append(l, "text-file", "bak-file", "dir", "dir-named-go", "dangling-symlink-go", "dangling-symlink", "symlink-to-dir-go", "symlink-to-go-file", "symlink-aliases-x8", "unannotated")
 	// files that sit next to a healthy Go file under the names editors, backup and "atomic write" schemes use
 	for _, sfx := range SiblingSuffixes {
 		l = append(l, "sibling:"+sfx)
@@ -48,10 +48,13 @@ var SiblingSuffixes = []string{".tmp", ".bak", "~", ".orig", ".new", ".swp"}
 
 // siblingOf turns a "sibling:<sfx>" entry into a neighbour of one of the healthy Go files already in the plan.
 func siblingOf(r *detsim.Rand, p *Plan, e Entry, kind string) Entry {
-	if kind == "symlink-to-go-file" {
+	if kind == "symlink-to-go-file" || kind == "symlink-aliases-x8" {
 		for i := range p.Entries {
 			if p.Entries[i].Kind == KGo && p.Entries[i].Break == "" && p.Entries[i].Perm == "" {
 				e.Raw = "file:" + p.Entries[i].Name
+				if kind == "symlink-aliases-x8" {
+					e.Shape = kind
+				}
 				return e
 			}
 		}
@@ -77,6 +80,14 @@ func siblingOf(r *detsim.Rand, p *Plan, e Entry, kind string) Entry {
 // companions returns the extra entries a bad entry needs around it: the non-Go sibling a //line directive names
 // (short text in one variant, a long annotated Go-like text in the other).
 func companions(r *detsim.Rand, e *Entry) []Entry {
+	if e.Kind == KSymlink && e.Shape == "symlink-aliases-x8" && len(e.Raw) > 5 {
+		// seven more names for the same file: a tool that handles the entries of a directory at the same time meets itself
+		var l []Entry
+		for i := 1; i < 8; i++ {
+			l = append(l, Entry{Name: fmt.Sprintf("%s.alias%d.go", e.Name[:len(e.Name)-3], i), Kind: KSymlink, Raw: e.Raw})
+		}
+		return l
+	}
 	if e.File == nil || e.File.LineDir == "" {
 		return nil
 	}
@@ -119,7 +130,7 @@ func faultEntry(r *detsim.Rand, kind, pos string, i int) Entry {
 		return Entry{Name: stem + ".lnk", Kind: KSymlink}
 	case "symlink-to-dir-go":
 		return Entry{Name: name, Kind: KSymlink, Raw: "dir"}
-	case "symlink-to-go-file":
+	case "symlink-to-go-file", "symlink-aliases-x8":
 		return Entry{Name: name, Kind: KSymlink, Raw: "file:"} // the caller points it at a healthy neighbour (siblingOf)
 	}
 	return Entry{Name: name, Kind: KGo, File: GenHealthy(r, "pb", false)}
